@@ -81,6 +81,59 @@ def count(case):
     return dict(reproduced=bool(bad), failing=bad[:5], statement='default step count >= rule length')
 
 
+@reg('C10.cseq')
+def cseq(case):
+    """CStepGenerator: steps == base_step*step_nom*(exp(1j*dtheta)*step_ratio)**(i+offset) (dtheta 0 on a radial path)"""
+    import numdifftools.limits as lm
+    bad = []
+    for dth, path, ratio, ns, off, nom in itertools.product([None, 0.4, -0.3, 0.0], ['radial', 'spiral'], [4.0, 2.5], [None, 5], [0, 2], [None, 1.5]):
+        o = dict(step_ratio=ratio, num_steps=ns, offset=off, step_nom=nom, path=path)
+        if dth is not None:
+            o['dtheta'] = dth
+        for x in (0.5, np.array([0.3, 20.0])):
+            gen = lm.CStepGenerator(**o)
+            got = list(gen(x))
+            d = 0.0 if path == 'radial' else (np.pi / 8 if dth is None else dth)
+            q = np.exp(1j * d) * ratio
+            num = ns if ns is not None else 2 * int(np.round(16.0 / np.log(abs(ratio)))) + 1
+            base = EPS ** (1. / 1.2)
+            xa = np.asarray(x, dtype=float)
+            nm = np.maximum(np.log(1.718281828459045 + np.abs(xa)), 1) if nom is None else np.full(xa.shape, nom)
+            want = [base * nm * q ** (i + off) for i in range(num - 1, -1, -1)]
+            ok = len(got) == len(want) and all(np.allclose(g, w, rtol=1e-9, atol=0) for g, w in zip(got, want))
+            ok = ok and np.allclose(gen.step_ratio, q, rtol=1e-12, atol=0)
+            if not ok:
+                bad.append(dict(options=o, x=np.asarray(x).tolist(), reported_step_ratio=str(gen.step_ratio), expected_step_ratio=str(q),
+                                got=[str(np.asarray(g).tolist()) for g in got[:2]], expected=[str(np.asarray(w).tolist()) for w in want[:2]]))
+                break
+    return dict(reproduced=bool(bad), failing=bad[:3], statement='CStepGenerator steps == base*nom*(exp(1j*dtheta)*ratio)**(i+offset)')
+
+
+@reg('C10.intx')
+def intx(case):
+    import numdifftools.step_generators as sg
+    import numdifftools.limits as lm
+    bad = []
+    for cls in (sg.MinStepGenerator, sg.MaxStepGenerator, lm.CStepGenerator):
+        for opt in [dict(), dict(step_nom=1.5), dict(step_nom=0.25, base_step=0.5), dict(step_nom=2.75, num_steps=4), dict(base_step=0.125, step_ratio=3.0)]:
+            for xi in (3, np.array([1, 2, 7]), np.int64(5), np.array([[1, 2], [3, 40]])):
+                xf = np.asarray(xi, dtype=float)
+                if cls is lm.CStepGenerator:
+                    a = list(cls(**opt)(xi)); b = list(cls(**opt)(xf))
+                else:
+                    a = list(cls(**opt)(xi, 'central', 2, 2)); b = list(cls(**opt)(xf, 'central', 2, 2))
+                if len(a) != len(b) or not all(np.array_equal(np.asarray(u, dtype=complex), np.asarray(v, dtype=complex)) for u, v in zip(a, b)):
+                    bad.append(dict(cls=cls.__name__, options=opt, x=np.asarray(xi).tolist(), with_int_x=[str(np.asarray(u).tolist()) for u in a[:2]],
+                                    with_float_x=[str(np.asarray(v).tolist()) for v in b[:2]]))
+                    break
+    return dict(reproduced=bool(bad), failing=bad[:3], statement='integer-typed x generates the same steps as the same x as floats')
+
+
 @reg('C10.misc')
 def misc(case):
-    return seq(case)
+    r = seq(case)
+    if not r['reproduced']:
+        r2 = cseq(case)
+        if r2['reproduced']:
+            return r2
+    return r
